@@ -25,6 +25,7 @@ def check(ctx, replay=None):
     plan.append(dict(scope="longlist", mc=["DecisionOK"] if th else None, mc_maxskips=[255], kw=dict(W=8, X32Bit=512, NSys=300), stride=1, concs=3 if th else 2, expand=1))
     # n unconditional names and conditional entries in one group, the conditional syscalls numbered below / above all the names
     plan.append(dict(scope="mixgroup", mc=["DecisionOK"] if th else None, mc_maxskips=[255], kw=dict(W=8, X32Bit=512, NSys=300), stride=1 if th else 2, concs=3, expand=1))
+    plan.append(dict(scope="hugelist", mc=None, with_model=False, kw=dict(W=11, X32Bit=4096, NSys=300), stride=1 if th else 2, concs=2, expand=1))
     if th:
         plan.append(dict(scope="manywide", mc=["DecisionOK"], mc_maxskips=[255], stride=4, concs=3, expand=2))
     polfam.run_family(ctx, plan, mine={"decision"}, decision_owner="C03")
